@@ -76,6 +76,12 @@ def parse_untyped_predicate(
     :param domain_constants: the constants that are defined in the domain.
     """
     predicate_name = untyped_predicate[0]
+    if len(set(untyped_predicate[1:])) != len(untyped_predicate[1:]):
+        # the signature is keyed by the argument names so a repeated argument cannot be represented.
+        raise SyntaxError(
+            f"Literals with a repeated argument are not supported, received - {untyped_predicate}"
+        )
+
     possible_signed_objects = {key: val for key, val in action_signature.items()}
     possible_signed_objects.update(
         {const_name: const.type for const_name, const in domain_constants.items()}
